@@ -11,8 +11,8 @@ sys.path.insert(0, os.path.dirname(os.path.abspath(__file__)))
 import common
 from common import Run, Inconclusive, log, VERIF, NCPU
 
-JS_PROPS = {"C02", "C03", "C04", "C05", "C06", "C07", "C11", "C12", "C13", "C14", "C15", "C16"}
-PY_PROPS = {"C01": "p_c01", "C08": "p_css", "C09": "p_css", "C10": "p_css", "C17": "p_css", "C18": "p_css", "C19": "p_css", "C20": "p_c20"}
+JS_PROPS = {"C02", "C03", "C04", "C05", "C06", "C07", "C11", "C12", "C13", "C14", "C15", "C16", "C20"}
+PY_PROPS = {"C01": "p_c01", "C08": "p_css", "C09": "p_css", "C10": "p_css", "C17": "p_css", "C18": "p_css", "C19": "p_css"}
 
 
 def find_node():
